@@ -21,7 +21,11 @@ static int nextid = 1;
 
 void sm_violation(const char *fmt, ...) {
   va_list ap; sm_viol++;
-  if (nvioltext < 32) { va_start(ap, fmt); vsnprintf(violtext[nvioltext++], 200, fmt, ap); va_end(ap); }
+  if (nvioltext < 32) {
+    va_start(ap, fmt); vsnprintf(violtext[nvioltext], 200, fmt, ap); va_end(ap);
+    /* reported at once: the call that follows a broken contract may not survive (a read into too small a buffer ends under ASan) */
+    printf("viol %s\n", violtext[nvioltext++]); fflush(stdout);
+  }
 }
 
 static unsigned long zenc(long z) { return z == 0 ? 0 : (z > 0 ? 2ul * z : 2ul * (-z) + 1); }
@@ -187,7 +191,6 @@ long sm_open_handles(void) { size_t i; long k = 0; for (i = 0; i < nhrecs; i++) 
 void sm_report(void) {
   int i;
   printf("ledger live_allocs=%ld open_handles=%ld violations=%ld faults_hit=%ld\n", sm_live_allocs(), sm_open_handles(), sm_viol, faults_hit);
-  for (i = 0; i < nvioltext; i++) printf("viol %s\n", violtext[i]);
   printf("calls");
   for (i = 0; i < K_NKINDS; i++) printf(" %s=%ld", kind_names[i], calls[i]);
   printf("\n");
